@@ -50,9 +50,14 @@ def strategy(ctx):
         "then_close": st.booleans(),  # the server closes the (idle) connection after this exchange
         "pipelined_with_next": st.booleans(),
     })
+    tunnel = st.one_of(st.none(), st.fixed_dictionaries({
+        "host": st.sampled_from(HOSTS), "port": st.sampled_from(PORTS),
+        "rewrite": st.one_of(st.none(), st.fixed_dictionaries({"host": st.sampled_from(HOSTS), "port": st.sampled_from(PORTS)})),
+        "eager": st.booleans(), "inner": st.integers(1, 3)}))
     return st.fixed_dictionaries({"mode": st.sampled_from(["regular", "regular", "upstream"]),
                                   "reqs": st.lists(req, min_size=2, max_size=8),
-                                  "connect_fail": st.lists(st.integers(0, 6), max_size=2, unique=True)})
+                                  "connect_fail": st.lists(st.integers(0, 6), max_size=2, unique=True),
+                                  "tunnel": tunnel})
 
 
 def dest_of(r, mode):
@@ -71,7 +76,62 @@ def dest_of(r, mode):
     return (host, port, scheme, via)
 
 
+def check_tunnel(case, ctx):
+    """CONNECT tunnel on a fresh client connection: an addon may rewrite the CONNECT destination in the http_connect hook;
+    every request sent inside the tunnel must be written to a socket for the destination in force when the tunnel was set up"""
+    t = case.get("tunnel")
+    if not t:
+        return
+    from mitmproxy.proxy import layer as mlayer
+    opts = make_options(connection_strategy="eager" if t["eager"] else "lazy")
+    mctx = make_context(opts, mode="regular")
+    top = http_layer.HttpLayer(mctx, http_layer.HTTPMode.regular)
+    dest = [t["host"], t["port"]]
+
+    def policy(hook):
+        if hook.name == "http_connect" and t["rewrite"]:
+            hook.flow.request.host = t["rewrite"]["host"]
+            hook.flow.request.port = t["rewrite"]["port"]
+            dest[:] = [t["rewrite"]["host"], t["rewrite"]["port"]]
+        elif hook.name == "next_layer":
+            # plain HTTP inside the tunnel
+            hook.data.layer = http_layer.HttpLayer(hook.data.context, http_layer.HTTPMode.transparent)
+    d = Driver(mctx, top, hook_policy=policy)
+    d.start()
+    d.recv(mctx.client, ("CONNECT %s:%d HTTP/1.1\r\nHost: %s:%d\r\n\r\n" % (t["host"], t["port"], t["host"], t["port"])).encode())
+    if d.crashed is not None:
+        ctx.crash(d.crashed, "layer-crash")
+        return
+    for i in range(t["inner"]):
+        if not (mctx.client.state & ConnectionState.CAN_READ):
+            break
+        d.recv(mctx.client, ("GET /t%d HTTP/1.1\r\nHost: %s\r\n\r\n" % (i, t["host"])).encode())
+        for conn in list(d.servers):
+            if conn.state & ConnectionState.CAN_READ and d.out(conn).count(b"GET /t") > d.out(conn).count(b"GET /t") - 1:
+                res = ref_http1.parse_requests(d.out(conn), eof=False)
+                if len(res.msgs) > getattr(conn, "_answered", 0):
+                    conn._answered = len(res.msgs)
+                    d.recv(conn, b"HTTP/1.1 200 OK\r\nContent-Length: 2\r\n\r\nok")
+    if d.crashed is not None:
+        ctx.crash(d.crashed, "layer-crash")
+        return
+    ctx.nt(("tunnel", t["host"], t["port"], repr(t["rewrite"]), t["eager"], t["inner"]), "tunnel:" + ("rewritten" if t["rewrite"] else "plain"))
+    seen = 0
+    for conn in d.servers:
+        out = d.out(conn)
+        if b"GET /t" in out:
+            seen += 1
+            if tuple(conn.address) != (dest[0], dest[1]):
+                ctx.fail("tunnel-request-on-wrong-socket:%s" % ("rewritten" if t["rewrite"] else "plain"),
+                         "CONNECT %s:%d%s, but tunnelled requests were written to %r" % (
+                             t["host"], t["port"], (" rewritten to %r" % (t["rewrite"],)) if t["rewrite"] else "", conn.address))
+    for conn in d.servers:
+        if tuple(conn.address) != (dest[0], dest[1]) and not (t["rewrite"] is None):
+            ctx.fail("tunnel-opened-to-unrewritten-destination", "connection opened to %r although the CONNECT was rewritten to %r" % (conn.address, dest))
+
+
 def check_case(case, ctx):
+    check_tunnel(case, ctx)
     mode = case["mode"]
     opts = make_options()
     mctx = make_context(opts, mode="regular" if mode == "regular" else "upstream:http://proxy-a:3128")
